@@ -47,12 +47,12 @@ fn check_rows(label: &str, run: Run, failures: &mut BTreeSet<String>) -> bool {
     }
 }
 
-// @grid c13_grid_rows_match_declared_outputs tier=quick bound="every numbers-schema query of the corpus (first 300 rows each) plus 10 shapes with nested folds / optionals / counts at several levels"
+// @grid c13_grid_rows_match_declared_outputs tier=quick bound="[+ seeded random accepted documents, VERIF_SEED] every numbers-schema query of the corpus (first 300 rows each) plus 10 shapes with nested folds / optionals / counts at several levels"
 // @ob every result row carries exactly the declared output names, and every value is valid for the declared output type (nullable inside @optional, one list level per enclosing @fold, Int for counts)
 pub(crate) fn c13_grid_rows_match_declared_outputs() {
     let mut n = 0u64;
     let mut failures = BTreeSet::new();
-    for case in corpus() {
+    for case in crate::verif_corpus::corpus_with_random(200, 13) {
         if case.schema_name != "numbers" { continue; }
         vk::grid_case(format_args!("{}", case.name));
         let args: Vec<(&str, FieldValue)> = case.arguments.iter().map(|(k, v)| (k.as_ref(), v.clone())).collect();
